@@ -1531,11 +1531,15 @@ class System:
         phase_names = list(self._g.attrs["phases"].keys())
         self._set_phase_lkup()
         src_cnt = 0
+        ndomain = {}
         for n in self._topo_nodes:
             tname = self._g[n]._component_type.name
             if tname == "SOURCE":
                 dname = self._g[n]._params["name"]
                 src_cnt += 1
+            else:
+                dname = ndomain[self._parents[n][0]]
+            ndomain[n] = dname
             ph_names = []
             if tname == "SLOSS":
                 ph_names += ["N/A"]
